@@ -14,6 +14,8 @@ import (
 	"context"
 	"encoding/json"
 	"fmt"
+	"io"
+	"log"
 	"net/http"
 	"net/http/httptest"
 	"reflect"
@@ -29,14 +31,16 @@ import (
 )
 
 type Op struct {
-	K  string `json:"k"` // put del bcast hb sync attach deliver disc
+	K  string `json:"k"` // put del bcast hb sync syncfail attach deliver disc restart (e2e: put del disc reconnect cutsync restart)
 	ID int    `json:"id,omitempty"`
-	V  int64  `json:"v,omitempty"` // encoded full record (base 3, one digit per SessionState field)
+	V  int64  `json:"v,omitempty"` // encoded full record (two bits per SessionState field, struct order)
 	N  int    `json:"n,omitempty"` // repeat count (bursts); 0 = once
+	F  int    `json:"f,omitempty"` // syncfail / cutsync: fault kind (0 refused with 503, 1 body cut half way, 2 undecodable body)
 }
 type Case struct {
 	Ops []Op `json:"ops"`
 	E2E bool `json:"e2e,omitempty"` // end-to-end schedule (ops: put del disc reconnect), real standbyLoop
+	HB  bool `json:"hb,omitempty"`  // e2e: the active's heartbeat ticker fires every 3 ms (default 10 s: never within a case)
 }
 
 const nIDs = 4
@@ -101,20 +105,61 @@ type world struct {
 
 func sid(id int) string { return fmt.Sprintf("sess-%d", id) }
 
-func newWorld() *world {
-	lg := zap.NewNop()
-	w := &world{aStore: ha.NewInMemorySessionStore(), sStore: ha.NewInMemorySessionStore(), link: "down"}
+func (w *world) newActive() {
+	w.aStore = ha.NewInMemorySessionStore()
 	ac := ha.DefaultSyncConfig()
 	ac.NodeID, ac.Role = "node-a", ha.RoleActive
-	w.active = ha.NewHASyncer(ac, w.aStore, lg)
+	w.active = ha.NewHASyncer(ac, w.aStore, zap.NewNop())
+	w.setHandler(0)
+}
+
+// setHandler installs the active's real /ha/sessions handler, or a faulty link in front of it
+func (w *world) setHandler(fault int) {
+	h := w.active.VerifHandleGetSessions
+	srvMu.Lock()
+	srvCur = faulty(h, fault)
+	srvMu.Unlock()
+}
+
+// faulty: 0 = the handler itself; 1 = refused (503); 2 = the real response cut half way through the
+// body (the connection is dropped while the full sync is in flight); 3 = a body that is not JSON
+func faulty(h http.HandlerFunc, fault int) http.HandlerFunc {
+	switch fault {
+	case 1:
+		return func(rw http.ResponseWriter, r *http.Request) {
+			http.Error(rw, "link down", http.StatusServiceUnavailable)
+		}
+	case 2:
+		return func(rw http.ResponseWriter, r *http.Request) {
+			rr := httptest.NewRecorder()
+			h(rr, r)
+			b := rr.Body.Bytes()
+			rw.Header().Set("Content-Type", "application/json")
+			rw.Header().Set("Content-Length", fmt.Sprint(len(b)))
+			rw.Write(b[:len(b)/2])
+			if f, ok := rw.(http.Flusher); ok {
+				f.Flush()
+			}
+			panic(http.ErrAbortHandler) // net/http closes the connection without completing the body
+		}
+	case 3:
+		return func(rw http.ResponseWriter, r *http.Request) {
+			rw.Header().Set("Content-Type", "application/json")
+			rw.Write([]byte(`{"type":"full","sessions":[{"session_id":`))
+		}
+	}
+	return h
+}
+
+func newWorld() *world {
+	lg := zap.NewNop()
+	w := &world{sStore: ha.NewInMemorySessionStore(), link: "down"}
+	w.newActive()
 	sc := ha.DefaultSyncConfig()
 	sc.NodeID, sc.Role = "node-b", ha.RoleStandby
 	sc.Partner = &ha.PartnerInfo{NodeID: "node-a", Endpoint: strings.TrimPrefix(server().URL, "http://")}
 	sc.RequestTimeout = 10 * time.Second
 	w.stand = ha.NewHASyncer(sc, w.sStore, lg)
-	srvMu.Lock()
-	srvCur = w.active.VerifHandleGetSessions
-	srvMu.Unlock()
 	return w
 }
 
@@ -132,29 +177,29 @@ func (w *world) disconnect() {
 
 // ---- the whole SessionState record as the session value ----
 // Every field of ha.SessionState except the key takes one of three values {zero, A, B} (bool: two);
-// a record is encoded as the base-3 number of its field choices, in struct order. The encoding is
-// driven by reflection so that a field added to the struct is covered (or, for an unknown kind,
-// reported) without touching the driver. A stored field holding anything else is flagged.
+// a record is encoded with two bits per field, in struct order (0 zero, 1 A, 2 B, 3 = the field
+// holds something else: only ever produced by a misbehaving implementation). The encoding is driven
+// by reflection so that a field added to the struct is covered (or, for an unknown kind, reported)
+// without touching the driver; the Model's field list is compared with the struct's in the
+// `layout` stream.
 var sessType = reflect.TypeOf(ha.SessionState{})
 
-const badValue = 999999999999
-
-func fieldChoice(i int, f reflect.StructField, trit int) (reflect.Value, bool) {
+func fieldChoice(i int, f reflect.StructField, d int) (reflect.Value, bool) {
 	v := reflect.New(f.Type).Elem()
-	if trit == 0 {
+	if d == 0 {
 		return v, true
 	}
 	switch {
 	case f.Type == reflect.TypeOf(time.Time{}):
-		v.Set(reflect.ValueOf(time.Unix(int64(1700000000+1000*trit+i), 0).UTC()))
+		v.Set(reflect.ValueOf(time.Unix(int64(1700000000+1000*d+i), 0).UTC()))
 	case f.Type.Kind() == reflect.String:
-		v.SetString(fmt.Sprintf("%s-%c", strings.ToLower(f.Name), 'A'+byte(trit-1)))
+		v.SetString(fmt.Sprintf("%s-%c", strings.ToLower(f.Name), 'A'+byte(d-1)))
 	case f.Type.Kind() == reflect.Bool:
 		v.SetBool(true)
 	case f.Type.Kind() >= reflect.Int && f.Type.Kind() <= reflect.Int64:
-		v.SetInt(int64(100*trit + i))
+		v.SetInt(int64(100*d + i))
 	case f.Type.Kind() >= reflect.Uint && f.Type.Kind() <= reflect.Uint64:
-		v.SetUint(uint64(100*trit + i))
+		v.SetUint(uint64(100*d + i))
 	default:
 		return v, false
 	}
@@ -168,20 +213,30 @@ func sameField(a, b reflect.Value) bool {
 	return a.Interface() == b.Interface()
 }
 
+// valueFields: indices of the struct fields other than the key, in struct order
+func valueFields() []int {
+	var o []int
+	for i := 0; i < sessType.NumField(); i++ {
+		if sessType.Field(i).Name != "SessionID" {
+			o = append(o, i)
+		}
+	}
+	return o
+}
+
 // session builds the record encoded by v for session id (the key is the only per-id field)
 func session(id int, v int64) *ha.SessionState {
 	s := &ha.SessionState{}
 	rv := reflect.ValueOf(s).Elem()
-	for i := 0; i < sessType.NumField(); i++ {
-		f := sessType.Field(i)
-		if f.Name == "SessionID" {
-			continue
+	for _, i := range valueFields() {
+		d := int(v & 3)
+		v >>= 2
+		if d == 3 {
+			d = 2
 		}
-		trit := int(v % 3)
-		v /= 3
-		fv, ok := fieldChoice(i, f, trit)
+		fv, ok := fieldChoice(i, sessType.Field(i), d)
 		if !ok {
-			panic("SessionState field of unsupported kind: " + f.Name)
+			panic("SessionState field of unsupported kind: " + sessType.Field(i).Name)
 		}
 		rv.Field(i).Set(fv)
 	}
@@ -189,45 +244,45 @@ func session(id int, v int64) *ha.SessionState {
 	return s
 }
 
-// encode is the inverse; badValue when a field holds none of its three values
+// encode is the inverse; digit 3 for a field that holds none of its three values
 func encode(s *ha.SessionState) int64 {
 	rv := reflect.ValueOf(s).Elem()
-	var v, pow int64 = 0, 1
-	for i := 0; i < sessType.NumField(); i++ {
-		f := sessType.Field(i)
-		if f.Name == "SessionID" {
-			continue
-		}
-		trit := -1
+	var v int64
+	for k, i := range valueFields() {
+		d := 3
 		for t := 0; t < 3; t++ {
-			fv, _ := fieldChoice(i, f, t)
+			fv, _ := fieldChoice(i, sessType.Field(i), t)
 			if sameField(rv.Field(i), fv) {
-				trit = t
+				d = t
 				break
 			}
 		}
-		if trit < 0 {
-			return badValue
-		}
-		v += int64(trit) * pow
-		pow *= 3
+		v |= int64(d) << (2 * uint(k))
 	}
 	return v
 }
 
 func canon(v int64) int64 { return encode(session(0, v)) }
 
-func nFields() int { return sessType.NumField() - 1 }
+func nFields() int { return len(valueFields()) }
 
-// the record whose every field is A (1), B (2), or the given pattern repeated
-func pattern(trits ...int) int64 {
-	var v, pow int64 = 0, 1
-	for i := 0; i < nFields(); i++ {
-		v += int64(trits[i%len(trits)]) * pow
-		pow *= 3
+func digit(v int64, k int) int64 { return (v >> (2 * uint(k))) & 3 }
+func setDigit(v int64, k int, d int64) int64 {
+	return v&^(3<<(2*uint(k))) | d<<(2*uint(k))
+}
+
+// the record whose fields follow the given digit pattern, repeated
+func pattern(ds ...int) int64 {
+	var v int64
+	for k := 0; k < nFields(); k++ {
+		v = setDigit(v, k, int64(ds[k%len(ds)]))
 	}
 	return canon(v)
 }
+
+func rec(v int64) string { return fmt.Sprintf("(U %d)", v) }
+
+const foreign = "Some [888888]" // a session outside the id universe / stored under a wrong key
 
 // table projects a store onto ids 0..nIDs-1 -> encoded FULL record, flagging anything else
 func table(st *ha.InMemorySessionStore) string {
@@ -237,16 +292,16 @@ func table(st *ha.InMemorySessionStore) string {
 		if s, ok := st.GetSession(sid(id)); ok {
 			n++
 			if s.SessionID != sid(id) {
-				items = append(items, fmt.Sprintf("Some %d", int64(badValue)))
+				items = append(items, foreign)
 			} else {
-				items = append(items, fmt.Sprintf("Some %d", encode(s)))
+				items = append(items, "Some "+rec(encode(s)))
 			}
 		} else {
 			items = append(items, "None")
 		}
 	}
 	if st.GetSessionCount() != n {
-		items = append(items, "Some 888888888888") // a session outside the id universe
+		items = append(items, foreign)
 	}
 	return vh.List(items)
 }
@@ -257,13 +312,17 @@ func recvTable(s *ha.HASyncer) string {
 	for id := 0; id < nIDs; id++ {
 		if x, ok := s.GetReceivedSession(sid(id)); ok {
 			n++
-			items = append(items, fmt.Sprintf("Some %d", encode(x)))
+			if x.SessionID != sid(id) {
+				items = append(items, foreign)
+			} else {
+				items = append(items, "Some "+rec(encode(x)))
+			}
 		} else {
 			items = append(items, "None")
 		}
 	}
 	if len(s.GetAllReceivedSessions()) != n {
-		items = append(items, "Some 888888888888")
+		items = append(items, foreign)
 	}
 	return vh.List(items)
 }
@@ -275,13 +334,13 @@ func coqMsg(m *ha.SyncMessage) string {
 	}
 	switch m.Type {
 	case ha.SyncTypeAdd, ha.SyncTypeUpdate:
-		return fmt.Sprintf("(MPut %d %d %d)", id, encode(&m.Sessions[0]), m.SequenceNum)
+		return fmt.Sprintf("(MPut %d %s %s %d)", id, vh.Bool(m.Type == ha.SyncTypeUpdate), rec(encode(&m.Sessions[0])), m.SequenceNum)
 	case ha.SyncTypeDelete:
 		return fmt.Sprintf("(MDel %d %d)", id, m.SequenceNum)
 	case ha.SyncTypeHeartbeat:
-		return "MHb"
+		return fmt.Sprintf("(MHb %d)", m.SequenceNum)
 	}
-	return "(MPut 777777 0 0)"
+	return "(MPut 777777 false [] 0)"
 }
 
 // what connectToStream does with the bytes of one event
@@ -300,7 +359,7 @@ func (w *world) apply(o Op) (op string, res string) {
 	switch o.K {
 	case "put":
 		o.V = canon(o.V)
-		op = fmt.Sprintf("Put %d %d", o.ID, o.V)
+		op = fmt.Sprintf("Put %d %s", o.ID, rec(o.V))
 		s := session(o.ID, o.V)
 		typ := ha.SyncTypeAdd
 		if _, ok := w.aStore.GetSession(s.SessionID); ok {
@@ -308,7 +367,7 @@ func (w *world) apply(o Op) (op string, res string) {
 		}
 		w.aStore.PutSession(s)
 		err := w.active.PushChange(typ, s)
-		res = fmt.Sprintf("RPush (MPut %d %d %d) %s", o.ID, o.V, w.seq(), vh.Bool(err == nil))
+		res = fmt.Sprintf("RPush (MPut %d %s %s %d) %s", o.ID, vh.Bool(typ == ha.SyncTypeUpdate), rec(o.V), w.seq(), vh.Bool(err == nil))
 	case "del":
 		op = fmt.Sprintf("Del %d", o.ID)
 		w.aStore.DeleteSession(sid(o.ID))
@@ -317,7 +376,7 @@ func (w *world) apply(o Op) (op string, res string) {
 	case "bcast", "hb":
 		_, _, _, l0, _ := w.active.VerifQueues()
 		var m *ha.SyncMessage
-		ms := "MHb"
+		ms := fmt.Sprintf("(MHb %d)", seqCount[w])
 		if o.K == "bcast" {
 			op = "Broadcast"
 			m = w.active.VerifBroadcastOne()
@@ -354,6 +413,25 @@ func (w *world) apply(o Op) (op string, res string) {
 			w.link = "synced"
 		}
 		res = "RSync " + vh.Bool(err == nil)
+	case "syncfail":
+		op = "SyncFail"
+		if w.link == "streaming" {
+			return op, "RSkip"
+		}
+		w.setHandler(1 + o.F%3)
+		err := w.stand.VerifPerformFullSync()
+		w.setHandler(0)
+		w.link = "down"
+		res = "RSync " + vh.Bool(err == nil)
+	case "restart":
+		op = "Restart"
+		if w.link == "streaming" {
+			w.disconnect()
+		}
+		w.active.Stop()
+		w.newActive()
+		seqCount[w] = 0
+		w.link = "down"
 	case "attach":
 		op = "Attach"
 		if w.link != "synced" {
@@ -382,7 +460,7 @@ func (w *world) apply(o Op) (op string, res string) {
 		ls := dataLines(w.inHand)
 		var m ha.SyncMessage
 		if len(ls) != 1 || json.Unmarshal(ls[0], &m) != nil {
-			res = "RDeliver (MPut 666666 0 0)"
+			res = "RDeliver (MPut 666666 false [] 0)"
 		} else {
 			res = "RDeliver " + coqMsg(&m)
 		}
@@ -497,6 +575,7 @@ func run(c Case, extraTags ...string) (vh.Case, string) {
 func alphabet(ids, vals int) []Op {
 	// value 1: every field non-zero (A); value 2: every other field back to zero, the rest B
 	values := []int64{pattern(1), pattern(0, 2), pattern(2, 1, 0)}
+	_ = values[2]
 	var a []Op
 	for id := 0; id < ids; id++ {
 		for v := 0; v < vals; v++ {
@@ -504,8 +583,8 @@ func alphabet(ids, vals int) []Op {
 		}
 		a = append(a, Op{K: "del", ID: id})
 	}
-	for _, k := range []string{"bcast", "hb", "sync", "attach", "deliver", "disc"} {
-		a = append(a, Op{K: k})
+	for _, k := range []string{"bcast", "hb", "sync", "syncfail", "attach", "deliver", "disc", "restart"} {
+		a = append(a, Op{K: k, F: 1}) // syncfail in the exhaustive stream: the body cut half way
 	}
 	return a
 }
@@ -513,24 +592,39 @@ func alphabet(ids, vals int) []Op {
 // genVal: every field independently zero / A / B; often a neighbour of the previous value with a
 // few fields changed (half of the changes reset a field to zero)
 func genVal(r *vh.Rng, prev int64) int64 {
-	var v, pow int64 = 0, 1
+	var v int64
 	near := prev > 0 && r.Chance(1, 2)
-	for i := 0; i < nFields(); i++ {
-		t := int64(r.Intn(3))
+	for k := 0; k < nFields(); k++ {
+		d := int64(r.Intn(3))
 		if near {
-			t = (prev / pow) % 3
+			d = digit(prev, k)
 			if r.Chance(1, 5) {
-				if t != 0 && r.Bool() {
-					t = 0
+				if d != 0 && r.Bool() {
+					d = 0
 				} else {
-					t = int64(r.Intn(3))
+					d = int64(r.Intn(3))
 				}
 			}
 		}
-		v += t * pow
-		pow *= 3
+		v = setDigit(v, k, d)
 	}
 	return canon(v)
+}
+
+// symbolic record values in seeds / corpus-style op strings: a = every field A, b = every field B,
+// h = every other field zero and the rest B, z = every field zero
+func symVal(c byte) int64 {
+	switch c {
+	case 'a':
+		return pattern(1)
+	case 'b':
+		return pattern(2)
+	case 'h':
+		return pattern(0, 2)
+	case 'z':
+		return 0
+	}
+	panic("bad symbolic value")
 }
 
 func parseOps(s string) []Op {
@@ -540,7 +634,9 @@ func parseOps(s string) []Op {
 		switch {
 		case strings.HasPrefix(t, "put"):
 			x.K = "put"
-			fmt.Sscanf(t[3:], "%d=%d", &x.ID, &x.V)
+			var c byte
+			fmt.Sscanf(t[3:], "%d=%c", &x.ID, &c)
+			x.V = symVal(c)
 		case strings.HasPrefix(t, "del") && t != "deliver":
 			x.K = "del"
 			fmt.Sscanf(t[3:], "%d", &x.ID)
@@ -552,7 +648,7 @@ func parseOps(s string) []Op {
 	return o
 }
 
-var seedPrefixes = []string{"sync attach", "put0=1 bcast sync attach", "put0=1 put1=1 sync attach disc", "sync", "put0=1 sync attach put0=2 bcast"}
+var seedPrefixes = []string{"sync attach", "put0=a bcast sync attach", "put0=a put1=a sync attach disc", "sync", "put0=a sync attach put0=h bcast"}
 
 // breadth-first exploration with implementation-state fingerprints (see harness/c14)
 func explore(depth int, alpha []Op, seeds []string) []vh.Case {
@@ -591,7 +687,19 @@ func genRandom(r *vh.Rng, maxLen int, guarded bool) Case {
 	link := "down"
 	last := map[int]int64{}
 	for len(ops) < n {
-		switch x := r.Intn(24); {
+		switch x := r.Intn(26); {
+		case x == 24:
+			ops = append(ops, Op{K: "syncfail", F: r.Intn(3)})
+			if link != "streaming" {
+				link = "down"
+			}
+		case x == 25:
+			if r.Chance(1, 2) {
+				continue
+			}
+			ops = append(ops, Op{K: "restart"})
+			link = "down"
+			last = map[int]int64{}
 		case x < 6:
 			id := r.Intn(nIDs)
 			last[id] = genVal(r, last[id])
@@ -617,7 +725,7 @@ func genRandom(r *vh.Rng, maxLen int, guarded bool) Case {
 			}
 		case x < 22:
 			ops = append(ops, Op{K: "deliver"})
-		default:
+		case x < 24:
 			ops = append(ops, Op{K: "disc"})
 			link = "down"
 		}
@@ -651,32 +759,53 @@ type e2eWorld struct {
 	srv            *httptest.Server
 	gateMu         sync.Mutex
 	down           bool
+	fault          int // 0 none; else the /ha/sessions handler is faulty(…, fault): full syncs fail
+	faultsServed   int
 	link           string
+	hb             bool
 }
 
-func newE2E() *e2eWorld {
-	lg := zap.NewNop()
-	w := &e2eWorld{aStore: ha.NewInMemorySessionStore(), sStore: ha.NewInMemorySessionStore(), link: "down", down: true}
+func (w *e2eWorld) newActive() {
 	ac := ha.DefaultSyncConfig()
 	ac.NodeID, ac.Role = "node-a", ha.RoleActive
-	w.active = ha.NewHASyncer(ac, w.aStore, lg)
-	gate := func(h http.HandlerFunc) http.HandlerFunc {
+	if w.hb { // heartbeats interleave with the changes in the real broadcastLoop
+		ac.HeartbeatInterval = 3 * time.Millisecond
+	}
+	st := ha.NewInMemorySessionStore()
+	a := ha.NewHASyncer(ac, st, zap.NewNop())
+	a.VerifStartBroadcastLoop()
+	w.gateMu.Lock()
+	w.aStore, w.active = st, a
+	w.gateMu.Unlock()
+}
+
+func newE2E(hb bool) *e2eWorld {
+	lg := zap.NewNop()
+	w := &e2eWorld{sStore: ha.NewInMemorySessionStore(), link: "down", down: true, hb: hb}
+	w.newActive()
+	gate := func(stream bool) http.HandlerFunc {
 		return func(rw http.ResponseWriter, r *http.Request) {
 			w.gateMu.Lock()
-			d := w.down
-			w.gateMu.Unlock()
-			if d {
-				http.Error(rw, "link down", http.StatusServiceUnavailable)
-				return
+			d, f, a := w.down, w.fault, w.active
+			if !d && f != 0 && !stream {
+				w.faultsServed++
 			}
-			h(rw, r)
+			w.gateMu.Unlock()
+			switch {
+			case d:
+				http.Error(rw, "link down", http.StatusServiceUnavailable)
+			case stream:
+				a.VerifHandleSessionStream(rw, r)
+			default:
+				faulty(a.VerifHandleGetSessions, f)(rw, r)
+			}
 		}
 	}
 	mux := http.NewServeMux()
-	mux.HandleFunc("/ha/sessions", gate(w.active.VerifHandleGetSessions))
-	mux.HandleFunc("/ha/sessions/stream", gate(w.active.VerifHandleSessionStream))
+	mux.HandleFunc("/ha/sessions", gate(false))
+	mux.HandleFunc("/ha/sessions/stream", gate(true))
 	w.srv = httptest.NewServer(mux)
-	w.active.VerifStartBroadcastLoop()
+	w.srv.Config.ErrorLog = log.New(io.Discard, "", 0) // the aborted handler of a cut full sync is expected
 	sc := ha.DefaultSyncConfig() // FullSyncInterval = 5 min (default), not shortened
 	sc.NodeID, sc.Role = "node-b", ha.RoleStandby
 	sc.Partner = &ha.PartnerInfo{NodeID: "node-a", Endpoint: strings.TrimPrefix(w.srv.URL, "http://")}
@@ -741,7 +870,7 @@ func (w *e2eWorld) apply(o Op) []string {
 			}
 			w.aStore.PutSession(s)
 			w.active.PushChange(typ, s)
-			m = fmt.Sprintf("Put %d %d", o.ID, o.V)
+			m = fmt.Sprintf("Put %d %s", o.ID, rec(o.V))
 		} else {
 			w.aStore.DeleteSession(sid(o.ID))
 			w.active.PushChange(ha.SyncTypeDelete, &ha.SessionState{SessionID: sid(o.ID)})
@@ -765,11 +894,41 @@ func (w *e2eWorld) apply(o Op) []string {
 		})
 		w.link = "down"
 		return []string{"Disconnect"}
-	case "reconnect":
+	case "restart":
+		// the active process goes away and comes back with an empty table and sequence numbers
+		// from zero; the link stays cut until the next reconnect so that the order of events is fixed
+		w.gateMu.Lock()
+		w.down = true
+		old := w.active
+		w.gateMu.Unlock()
+		w.srv.CloseClientConnections()
+		old.Stop()
+		w.newActive()
+		poll(3*time.Second, func() bool { return !w.stand.IsConnected() })
+		w.link = "down"
+		return []string{"Restart"}
+	case "reconnect", "cutsync":
 		if w.link != "down" {
 			return nil
 		}
 		poll(1500*time.Millisecond, func() bool { pl, _, _, _, _ := w.active.VerifQueues(); return pl == 0 })
+		pre := []string{}
+		if o.K == "cutsync" {
+			// the link comes back but the first full syncs fail in flight (refused / body cut half
+			// way / garbage); the standby's own loop must retry the FULL SYNC, not go on to the stream
+			w.gateMu.Lock()
+			w.fault, w.faultsServed, w.down = 1+o.F%3, 0, false
+			w.gateMu.Unlock()
+			poll(3*time.Second, func() bool {
+				w.gateMu.Lock()
+				defer w.gateMu.Unlock()
+				return w.faultsServed >= 2
+			})
+			w.gateMu.Lock()
+			w.fault = 0
+			w.gateMu.Unlock()
+			pre = []string{"SyncFail"}
+		}
 		w.gateMu.Lock()
 		w.down = false
 		w.gateMu.Unlock()
@@ -780,13 +939,13 @@ func (w *e2eWorld) apply(o Op) []string {
 		}) {
 			w.link = "streaming"
 		}
-		return []string{"FullSync", "Attach"} // as standbyLoop does
+		return append(pre, "FullSync", "Attach") // as standbyLoop does
 	}
 	panic("bad e2e op " + o.K)
 }
 
 func runE2E(c Case, extraTags ...string) vh.Case {
-	w := newE2E()
+	w := newE2E(c.HB)
 	var gs []string
 	tags := map[string]bool{}
 	outageChange := false
@@ -794,12 +953,19 @@ func runE2E(c Case, extraTags ...string) vh.Case {
 		ops := w.apply(o)
 		w.quiet()
 		pl, _, _, cl, _ := w.active.VerifQueues()
+		for i := 0; i < 50 && cl != 0; i++ { // a heartbeat in flight: it does not touch the tables
+			time.Sleep(200 * time.Microsecond)
+			pl, _, _, cl, _ = w.active.VerifQueues()
+		}
 		lk := "LDown"
 		if w.stand.IsConnected() {
 			lk = "LStreaming"
 		}
 		gs = append(gs, fmt.Sprintf("(%s, (%s, %s, %d, %d, %s))", vh.List(ops), table(w.aStore), table(w.sStore), pl, cl, lk))
 		tags["e2e:"+o.K] = true
+		if c.HB {
+			tags["e2e:heartbeats-every-3ms"] = true
+		}
 		if (o.K == "put" || o.K == "del") && w.link == "down" {
 			outageChange = true
 		}
@@ -818,8 +984,7 @@ func runE2E(c Case, extraTags ...string) vh.Case {
 }
 
 func genE2E(r *vh.Rng) Case {
-	c := Case{E2E: true}
-	link := "down"
+	c := Case{E2E: true, HB: r.Bool()}
 	last := map[int]int64{}
 	chg := func() {
 		if r.Chance(1, 3) {
@@ -830,29 +995,123 @@ func genE2E(r *vh.Rng) Case {
 			c.Ops = append(c.Ops, Op{K: "put", ID: id, V: last[id]})
 		}
 	}
+	up := func() { // the link comes back: one time in three the first full syncs are cut in flight
+		if r.Chance(1, 3) {
+			c.Ops = append(c.Ops, Op{K: "cutsync", F: r.Intn(3)})
+		} else {
+			c.Ops = append(c.Ops, Op{K: "reconnect"})
+		}
+	}
 	for k := r.Intn(3); k > 0; k-- {
 		chg()
 	}
-	c.Ops = append(c.Ops, Op{K: "reconnect"})
-	link = "streaming"
+	up()
 	for round := 1 + r.Intn(3); round > 0; round-- {
 		for k := r.Intn(4); k > 0; k-- {
 			chg()
 		}
-		c.Ops = append(c.Ops, Op{K: "disc"})
-		link = "down"
-		for k := 1 + r.Intn(3); k > 0; k-- { // changes during the outage (deletes matter most)
-			chg()
+		if r.Chance(1, 4) { // the active restarts (empty table, sequence numbers from zero)
+			c.Ops = append(c.Ops, Op{K: "restart"})
+			last = map[int]int64{}
+			for k := r.Intn(3); k > 0; k-- { // 0: the standby meets an EMPTY snapshot
+				chg()
+			}
+		} else {
+			c.Ops = append(c.Ops, Op{K: "disc"})
+			for k := 1 + r.Intn(3); k > 0; k-- { // changes during the outage (deletes matter most)
+				chg()
+			}
 		}
-		c.Ops = append(c.Ops, Op{K: "reconnect"})
-		link = "streaming"
+		up()
 		for k := r.Intn(3); k > 0; k-- {
 			chg()
 		}
 	}
-	_ = link
 	return c
 }
+
+// ---------------------------------------------------------------- per-field stream
+// For every field of the record (exhaustively) and both non-zero values: the field goes back to its
+// zero value in a stream update, takes the other non-zero value, is reset again, is reset by a full
+// sync; an add after a delete carries only that field; an update clears the whole record.
+func genFields() []Case {
+	var cs []Case
+	for k := 0; k < nFields(); k++ {
+		for d := 1; d <= 2; d++ {
+			base := pattern(d)
+			zeroed := setDigit(base, k, 0)
+			other := canon(setDigit(base, k, int64(3-d)))
+			only := canon(setDigit(0, k, int64(d)))
+			put := func(v int64) []Op { return []Op{{K: "put", ID: 0, V: v}, {K: "bcast"}, {K: "deliver"}} }
+			ops := []Op{{K: "put", ID: 0, V: base}, {K: "bcast"}, {K: "sync"}, {K: "attach"}}
+			ops = append(ops, put(zeroed)...)
+			ops = append(ops, put(other)...)
+			ops = append(ops, put(zeroed)...)
+			ops = append(ops, put(base)...)
+			ops = append(ops, Op{K: "disc"}, Op{K: "put", ID: 0, V: zeroed}, Op{K: "bcast"}, Op{K: "sync"}, Op{K: "attach"})
+			ops = append(ops, Op{K: "del", ID: 0}, Op{K: "bcast"}, Op{K: "deliver"})
+			ops = append(ops, put(only)...)
+			ops = append(ops, put(base)...)
+			ops = append(ops, put(0)...)
+			cs = append(cs, Case{Ops: ops})
+		}
+	}
+	return cs
+}
+
+// the struct's field list as encoding/json sees it, for the `layout` stream
+func layoutCoq() string {
+	one := func(f reflect.StructField) string {
+		tag := f.Tag.Get("json")
+		parts := strings.Split(tag, ",")
+		name, omit, ser := f.Name, false, f.IsExported()
+		if tag == "-" {
+			ser = false
+		} else if parts[0] != "" {
+			name = parts[0]
+		}
+		for _, p := range parts[1:] {
+			if p == "omitempty" {
+				omit = true
+			}
+		}
+		kind := "KOther"
+		switch {
+		case f.Type == reflect.TypeOf(time.Time{}):
+			kind = "KTime"
+		case f.Type.Kind() == reflect.String:
+			kind = "KString"
+		case f.Type.Kind() == reflect.Bool:
+			kind = "KBool"
+		case f.Type.Kind() >= reflect.Int && f.Type.Kind() <= reflect.Int64:
+			kind = "KInt"
+		case f.Type.Kind() >= reflect.Uint && f.Type.Kind() <= reflect.Uint64:
+			kind = "KUint"
+		}
+		return fmt.Sprintf("mkF %q %q %v %v %s", f.Name, name, omit, ser, kind)
+	}
+	key := `mkF "<none>" "" false false KOther`
+	var rest []string
+	for i := 0; i < sessType.NumField(); i++ {
+		if sessType.Field(i).Name == "SessionID" {
+			key = one(sessType.Field(i))
+		} else {
+			rest = append(rest, one(sessType.Field(i)))
+		}
+	}
+	return fmt.Sprintf("(%s,\n  %s)", key, vh.List(rest))
+}
+
+const layoutHeader = `From Coq Require Import NArith List String. Import ListNotations.
+From Verif Require Import Model.HaSyncFields Model.HaSyncCheck.
+Local Open Scope string_scope.
+Definition cases : list (fspec * list fspec) := [
+`
+const layoutFooter = `
+].
+Definition R := Eval vm_compute in run_layout cases.
+Print R.
+`
 
 const e2eHeader = `From Coq Require Import NArith List. Import ListNotations.
 From Verif Require Import Model.HaSync Model.HaSyncSpec Model.HaSyncCheck.
@@ -916,13 +1175,22 @@ func main() {
 	if len(corpus) > 0 {
 		vh.Emit(cfg, "corpus", header, footer, corpus, nil)
 	}
+	vh.Emit(cfg, "layout", layoutHeader, layoutFooter, []vh.Case{{Coq: layoutCoq(), Desc: Case{}, Tags: []string{"layout"}}},
+		map[string]interface{}{"note": "ha.SessionState as compiled (reflection: name, JSON name, omitempty, serialised, kind per field) against the generated field list the Model is built on"})
+	var fcs []vh.Case
+	for _, c := range genFields() {
+		cs, _ := run(c, "per-field")
+		fcs = append(fcs, cs)
+	}
+	vh.Emit(cfg, "fields", header, footer, fcs, map[string]interface{}{"exhaustive": true,
+		"exhaustive_note": "every field of the record x both non-zero values: reset to zero by a stream update, changed, reset again, reset across a full sync, carried alone by an add after a delete, whole record cleared by an update"})
 	depth, nrand, maxLen := 2, 120, 16
 	if cfg.Thorough() {
 		depth, nrand, maxLen = 4, 2000, 40
 	}
 	ex := explore(depth, alphabet(2, 2), seedPrefixes)
 	vh.Emit(cfg, "exhaustive", header, footer, ex, map[string]interface{}{"exhaustive": true,
-		"exhaustive_note": fmt.Sprintf("breadth-first over the 12-operation alphabet (2 ids x 2 full-record values: all fields non-zero; every other field reset to zero) to depth %d from the initial state and %d seeded states; a sequence is extended only when it reaches a new implementation-state fingerprint (both stores, received map, queue lengths, link)", depth, len(seedPrefixes)),
+		"exhaustive_note": fmt.Sprintf("breadth-first over the 14-operation alphabet (2 ids x 2 full-record values: all fields non-zero; every other field reset to zero) to depth %d from the initial state and %d seeded states; a sequence is extended only when it reaches a new implementation-state fingerprint (both stores, received map, queue lengths, link)", depth, len(seedPrefixes)),
 		"pending_cap":     pcap, "client_cap_plus_in_hand": ccap})
 	r := vh.NewRng(cfg.Seed)
 	var cases, guarded []vh.Case
